@@ -7,7 +7,7 @@ two namespace-less paths to one pipeline, no quotes/separators in string paramet
 from . import abstract as A
 from .. import values as V
 
-NS_NAMES = ['na', 'nb', 'nc', 'nd', 'ne', 'nf', 'ng', 'nh', 'ni', 'nj', 'nk', 'nl', 'nm']
+NS_NAMES = ['na', 'nb', 'nc', 'nd', 'ne', 'nf', 'ng', 'nh', 'ni', 'nj', 'nk', 'nl', 'nm', 'ana', 'bnb', 'xnc', 'one', 'dnd']
 TASK_NAMES = ['alfa', 'bravo', 'cargo', 'delta', 'echo', 'fokus', 'golf', 'hotel', 'india', 'joker', 'kilo', 'lima',
               'mike', 'oskar', 'papa', 'quebec', 'romeo', 'sigma', 'tango', 'ultra', 'viktor', 'whisky', 'xray', 'yankee', 'zulu']
 GROUPS = [None, None, 'grp', 'gx:gy', 'MOD', 'DMOD', 'hh']
@@ -35,10 +35,40 @@ def gen_param_value(r, family, depth=0):
         return {('k' + str(i)) if r.random() < 0.7 else ''.join(r.choice('abcxyz') for _ in range(2)) + str(i):
                 (gen_param_value(r, r.choice(['int', 'str', 'list', 'dict', 'float']), depth + 1) if depth < 2 else i)
                 for i in range(r.choice([0, 1, 2, 3]))}
+    if family == 'placeholder':
+        return r.choice(['{VA}/in', 'pre_{VB}', '{VA}{VB}', 'x{VA}y{VA}', '{VB}/{VA}/z', '{VC}'])
+    if family == 'obj':
+        t = r.random()
+        if t < 0.5:
+            kw = {'a': gen_param_value(r, r.choice(['int', 'str', 'list']))}
+            if r.random() < 0.5:
+                kw['b'] = r.choice(['x', 'y', 'zz'])
+            if r.random() < 0.4:
+                kw['verbose'] = r.random() < 0.5
+            return {'class': 'tcw.objs.PObj', 'kwargs': kw}
+        kw = {}
+        if r.random() < 0.7:
+            kw['c'] = r.choice([1, 2, 3])
+        if r.random() < 0.5:
+            kw['d'] = r.choice([None, 5, 'q'])
+        if r.random() < 0.3:
+            kw['debug'] = r.random() < 0.5
+        return {'class': 'tcw.objs.PDef', 'kwargs': kw}
+    if family == 'objset':
+        return {'class': 'tcw.objs.PSet', 'kwargs': {'tags': r.sample(['red', 'green', 'blue', 'cyan', 'magenta', 'yellow', 'black'], r.randint(2, 5))}}
     raise ValueError(family)
 
 
-FAMILIES = ['int', 'int', 'str', 'float', 'bool', 'list', 'dict', 'none_or_int']
+FAMILIES = ['int', 'int', 'str', 'float', 'bool', 'list', 'dict', 'none_or_int', 'placeholder', 'obj']
+
+
+def obj_equiv(a, b):
+    from .abstract import canon_param
+    return canon_param(a) == canon_param(b)
+
+
+def _norm_obj(v):
+    return v
 
 
 def distinct_pool(r, family, n):
@@ -48,6 +78,11 @@ def distinct_pool(r, family, n):
     while len(pool) < n and tries < 50:
         tries += 1
         v = gen_param_value(r, family)
+        if family in ('obj', 'objset'):
+            v = _norm_obj(v) if r.random() < 0.5 else v
+            if all(not obj_equiv(v, w) for w in pool):
+                pool.append(v)
+            continue
         if all(not _loose_eq(v, w) for w in pool):
             pool.append(v)
     return pool
@@ -63,7 +98,7 @@ def _loose_eq(a, b):
 DEFAULT_KNOBS = {
     'n_pipes': (1, 4),
     'classes_per_pipe': (1, 3),
-    'kinds': list(V.JSON_KINDS) + ['ndarray', 'frame', 'series', 'gen', 'dir', 'mem', 'listnp', 'genlazy'],
+    'kinds': list(V.JSON_KINDS) + ['ndarray', 'frame', 'series', 'gen', 'dir', 'mem', 'listnp', 'genlazy', 'cont'],
     'max_params': 3,
     'n_roots': (1, 3),
     'p_ns_slot': 0.6,
@@ -137,7 +172,7 @@ def gen_world(r, knobs=None):
             kind = r.choice(k['kinds'])
             params = []
             for j in range(r.randint(0, k['max_params'])):
-                fam = r.choice(FAMILIES)
+                fam = r.choice(k.get('families') or FAMILIES)
                 pool = distinct_pool(r, fam, 3)
                 if len(pool) < 2:
                     fam = 'int'
@@ -151,6 +186,15 @@ def gen_world(r, knobs=None):
                     p['ignore'] = True
                 if r.random() < 0.15:
                     p['nic'] = f'cfg_{p["name"]}'
+                if fam == 'placeholder':
+                    p['placeholder'] = True
+                    p['dpd'] = False
+                if fam in ('obj', 'objset'):
+                    # default values are python objects in real code; keep object parameters required or default None
+                    p['dpd'] = False
+                    if p['default'] != A.NO_DEFAULT:
+                        p['default'] = {'v': None}
+                        p['nospell'] = True
                 params.append(p)
             # inputs: earlier classes of this pipeline (rel '') or classes of reachable pipelines
             cands = [('', c2) for c2 in cids]
@@ -161,10 +205,13 @@ def gen_world(r, knobs=None):
             inputs = []
             r.shuffle(cands)
             used_cls = set()
+            style = r.choice(k['styles'])
+            used_rel = set()
             for rel, c2 in cands[: r.choice([0, 1, 1, 2, 3])]:
-                if c2 in used_cls:
-                    continue
+                if c2 in used_cls and (style != 'index' or (rel, c2) in used_rel):
+                    continue    # the same task twice (under different namespaces) can only be told apart by index
                 used_cls.add(c2)
+                used_rel.add((rel, c2))
                 tgt = classes[c2]
                 forms = ['class', 'slug']
                 if rel == '':
@@ -184,7 +231,6 @@ def gen_world(r, knobs=None):
             n_in = len(inputs)
             reads = [i for i in range(n_in) if r.random() < 0.75]
             r.shuffle(reads)
-            style = r.choice(k['styles'])
             classes.append({
                 'py': py, 'name': name, 'meta_name': explicit_name, 'base': base, 'group': group, 'slug': slug, 'pipe': pi,
                 'params': params, 'inputs': inputs, 'kind': kind, 'reads': reads, 'style': style,
